@@ -779,6 +779,10 @@ func main() {
 		runChild(*childJob)
 		return
 	}
+	if *recTreeChild != "" {
+		recTreeChildMain(*recTreeChild)
+		return
+	}
 	var err error
 	self, err = os.Executable()
 	if err != nil {
@@ -833,6 +837,7 @@ func main() {
 
 	// 1. the closed word / exit codes
 	exitCodeGrid()
+	recTreeStage()
 
 	// 2. structural tie
 	perKind, nRandom := 3, 150
